@@ -190,29 +190,44 @@ Proof. unfold fw, stored_elements. destruct (lookup u d); reflexivity. Qed.
 Lemma stored_no_space d u : forall x, In x (stored_elements d u) -> no_char space_char x = true.
 Proof. unfold stored_elements. destruct (lookup u d); [apply elements_no_space|intros x []]. Qed.
 
+Lemma filter_idem {A} (p : A -> bool) l : filter p (filter p l) = filter p l.
+Proof.
+  induction l as [|x r IH]; cbn [filter]; [reflexivity|].
+  destruct (p x) eqn:E; cbn [filter]; [rewrite E, IH|rewrite IH]; reflexivity.
+Qed.
+
+Lemma store_db_fw d u n t : store_db d u n t = set t u (set u (join " " (fw d u ++ [code n])) d).
+Proof. unfold store_db, fw. destruct (lookup u d); reflexivity. Qed.
+
+Lemma fw_no_space d u : forall x, In x (fw d u) -> no_char space_char x = true.
+Proof. intros x Hx. rewrite fw_stored in Hx. apply filter_In in Hx as [Hx _]. apply (stored_no_space d u x Hx). Qed.
+
 (* store(): the user's identifiers gain one element at the end *)
 Lemma fw_store_db d u n t :
   t <> u -> truthy (txt n) = true ->
   fw (store_db d u n t) u = (fw d u ++ [code n])%list.
 Proof.
-  intros Htu Ht. unfold store_db. rewrite fw_set_other by congruence.
-  change (match lookup u d with Some v => elements v | None => [] end) with (stored_elements d u).
+  intros Htu Ht. rewrite store_db_fw. rewrite fw_set_other by congruence.
   rewrite fw_set_same.
-  - rewrite filter_app. cbn [filter]. rewrite fw_stored.
+  - rewrite filter_app. cbn [filter]. rewrite fw_stored, filter_idem.
     assert (Hc : nonempty (code n) = true) by (apply nonempty_iff, code_nonempty; exact Ht).
     rewrite Hc. reflexivity.
-  - intros x Hx. apply in_app_iff in Hx as [Hx|[<-|[]]]; [apply (stored_no_space d u); exact Hx|apply code_no_space].
+  - intros x Hx. apply in_app_iff in Hx as [Hx|[<-|[]]]; [apply (fw_no_space d u); exact Hx|apply code_no_space].
 Qed.
 
 Lemma lookup_store_db d u n t k :
   k <> u -> k <> t -> lookup k (store_db d u n t) = lookup k d.
-Proof. intros H1 H2. unfold store_db. rewrite !lookup_set_neq by assumption. reflexivity. Qed.
+Proof. intros H1 H2. rewrite store_db_fw. rewrite !lookup_set_neq by assumption. reflexivity. Qed.
 
 Lemma lookup_store_db_text d u n t : lookup t (store_db d u n t) = Some u.
-Proof. unfold store_db. apply lookup_set_eq. Qed.
+Proof. rewrite store_db_fw. apply lookup_set_eq. Qed.
 
 Lemma fw_store_db_other d u n t k : k <> u -> k <> t -> fw (store_db d u n t) k = fw d k.
 Proof. intros H1 H2. unfold fw. rewrite lookup_store_db by assumption. reflexivity. Qed.
+
+(* remove_remote(): the forward entry is rewritten, or deleted when nothing is left *)
+Definition put_rest (id : string) (rest : list string) (d : db) : db :=
+  match rest with [] => del id d | _ => set id (join " " rest) d end.
 
 (* remove_remote(): what a successful removal does *)
 Lemma remove_remote_ok d n d' :
@@ -220,7 +235,7 @@ Lemma remove_remote_ok d n d' :
   exists t id, txt n = Some t /\ lookup t d = Some id
     /\ ((lookup id d = None /\ d' = del t d)
         \/ (exists v, lookup id d = Some v /\ In (code n) (elements v)
-                      /\ d' = del t (set id (join " " (remove_first (code n) (elements v))) d))).
+                      /\ d' = del t (put_rest id (remove_first (code n) (elements v)) d))).
 Proof.
   unfold remove_remote. destruct (txt n) as [t|]; [|discriminate].
   destruct (lookup t d) as [id|] eqn:Ht; [|discriminate].
@@ -240,11 +255,23 @@ Proof.
   destruct (mem (code n) (elements v)); [discriminate|intros E; inversion E; auto].
 Qed.
 
+Lemma lookup_put_rest id rest d k : k <> id -> lookup k (put_rest id rest d) = lookup k d.
+Proof.
+  intros H. unfold put_rest. destruct rest; [apply lookup_del_neq|apply lookup_set_neq]; exact H.
+Qed.
+
+Lemma fw_put_rest_other id rest d k : k <> id -> fw (put_rest id rest d) k = fw d k.
+Proof. intros H. unfold fw. rewrite lookup_put_rest by exact H. reflexivity. Qed.
+
 Lemma fw_remove d id v c :
   lookup id d = Some v -> c <> "" ->
-  fw (set id (join " " (remove_first c (elements v))) d) id = remove_first c (fw d id).
+  fw (put_rest id (remove_first c (elements v)) d) id = remove_first c (fw d id).
 Proof.
-  intros Hv Hc. rewrite fw_set_same.
-  - unfold fw. rewrite Hv. apply filter_remove_first_comm. apply nonempty_iff. exact Hc.
-  - intros x Hx. apply in_remove_first in Hx. apply (elements_no_space v). exact Hx.
+  intros Hv Hc.
+  assert (Hf : filter nonempty (remove_first c (elements v)) = remove_first c (fw d id)).
+  { unfold fw. rewrite Hv. apply filter_remove_first_comm. apply nonempty_iff. exact Hc. }
+  unfold put_rest. destruct (remove_first c (elements v)) as [|a r] eqn:Er.
+  - rewrite <- Hf. unfold fw. rewrite lookup_del_eq. reflexivity.
+  - rewrite <- Hf, <- Er. apply fw_set_same.
+    intros x Hx. apply in_remove_first in Hx. apply (elements_no_space v). exact Hx.
 Qed.
